@@ -323,17 +323,34 @@ def cargo_env():
     }
 
 
+HARNESS_PACKAGES = ["ntp-proto", "ntpd", "statime-wire", "statime-base", "statime-algo", "statime-csptp"]
+
+
+def _wrapper(sel):
+    d = os.path.join(VERIF, "tools", "wrap")
+    w = os.path.join(d, sel)
+    if not os.path.exists(w):
+        shutil.copy(os.path.join(d, "wrapper.sh"), w)
+        os.chmod(w, 0o755)
+    return w
+
+
 def build_harness(crate, prop, extra_args=""):
-    """returns (exe or None, log, mode).  First the all-properties build (shared by
-    every check of the crate); if that fails, the build with only this
+    """returns (exe or None, log, mode).  The lib test binaries of all hooked crates
+    are built in one cargo invocation (features unify as in the repository's own
+    `cargo test --workspace`); the guard cfg and the harness selection cfg are added
+    to workspace members only, through RUSTC_WORKSPACE_WRAPPER, so dependencies are
+    shared.  First the all-properties build; if that fails, the build with only this
     property's harness module, so that an edit which breaks another property's
     harness does not raise an alarm here."""
     os.makedirs(CACHE, exist_ok=True)
     last = ""
     for mode in ("verif_all", "verif_" + prop.lower()):
-        cmd = ("cargo rustc -p %s --lib --profile test --offline --message-format=json %s -- "
-               "--cfg %s --cfg %s -A warnings" % (crate, extra_args, GUARD, mode))
-        rc, out = sh(cmd, cwd=REPO, env=cargo_env(), timeout=3000)
+        env = cargo_env()
+        env["RUSTC_WORKSPACE_WRAPPER"] = _wrapper(mode)
+        cmd = "cargo test --no-run --lib %s --offline --message-format=json %s" % (
+            " ".join("-p " + p for p in HARNESS_PACKAGES), extra_args)
+        rc, out = sh(cmd, cwd=REPO, env=env, timeout=3000)
         exe = None
         msgs = []
         for line in out.splitlines():
